@@ -2,8 +2,19 @@
 
 Engine D (bounded-exhaustive enumeration).  Inputs are built as
     schema  x  instance (value alphabets with hazard strings)  x  every sequence of <=2 (quick) / <=3 (thorough)
-    corruption operators  x  strategy order (all 64 non-empty ordered subsets + the default)  x  {fold, fold_enhanced}
-and every one is folded by the real Chaperone.  One more family (schema Memo) is the product
+    corruption operators  x  strategy order (no argument, the empty list, all 64 non-empty ordered subsets, 16 orders
+    that list a strategy twice)  x  {fold, fold_enhanced}
+and every one is folded by the real Chaperone.  Schemas: typed / optional / defaulted / nested fields, plus an aliased +
+constrained + extra=forbid schema whose validator answers with an empty-message ValueError, a bare assert and exception
+classes pydantic does not wrap, a self-similar (recursive) schema and an all-defaults schema.  A small family of
+degenerate raw texts (empty, blank, non-object JSON, empty fences, lone brackets, huge integer) is folded for every schema.
+Every input of <=1 (quick) / <=2 (thorough) operators is also folded under three non-default validator configurations
+(order given to the constructor + max_retries=1; max_retries=0 + co-chaperones (identity for the schema, a rewriting
+one for ANOTHER schema) + on_misfold recorder + silent=False; max_retries=10**6 + register_co_chaperone incl.
+re-registration + the public strategies attribute reassigned + reset_statistics between calls), the remaining
+2-operator inputs under a reduced order set of those configurations.  For every input the default-order fold is repeated
+on the same validator after all other orders and after a fold of the same text for a twin schema (same fields, other
+class), and on a second validator object: each repeat is judged again and must equal the first answer.  One more family (schema Memo) is the product
     escape-hazard string (backslash runs, trailing backslash, backslash-quote, quote + structural characters)
     x  repair-target string (Python literals, NaN/undefined, trailing commas, single quotes, unquoted-key text)
 in both orders, as neighbouring string fields and as neighbouring list elements, run under the purely syntactic
@@ -20,6 +31,12 @@ Clauses (each a verdict):
                                                          strategy_used STRICT, confidence 1.0
   fold and fold_enhanced agree on validity and structure;  0 <= confidence <= 1;  confidence == 1.0 => STRICT
   nothing raises
+  "1.0 only for strict" is also decided from the calls, not only from what the result says about itself: confidence 1.0
+        under an order that does not contain STRICT, or for a text that STRICT on its own rejects, is a violation; the
+        provenance rule of a single-strategy order is the one of the requested strategy
+  the empty strategy list: the statement does not say whether it means "default" or "none"; only the order-independent
+        clauses are asserted for it
+  on_misfold: a fold that returns valid must not have reported a misfold; the reported object is an invalid result
   provenance STRICT/EXTRACTION: some JSON value present in the raw text validates to the returned structure
   provenance LENIENT: the same, modulo the documented type coercions
   provenance REPAIR: when the raw text is a purely syntactic corruption of data D (quotes, commas, literals, keys,
@@ -33,7 +50,9 @@ re-run under all orders.
 """
 from __future__ import annotations
 
+import contextlib
 import hashlib
+import io
 import itertools
 import json
 import re
@@ -41,7 +60,7 @@ from typing import Optional
 
 from mc import common
 
-from pydantic import BaseModel
+from pydantic import BaseModel, ConfigDict, Field, create_model, field_validator
 
 from operon_ai.organelles.chaperone import Chaperone, FoldingStrategy
 
@@ -96,7 +115,45 @@ class Memo(BaseModel):
     opt: Optional[str] = None
 
 
-SCHEMAS = {c.__name__: c for c in (Person, Quote, Tagged, Note, Outer, Post, Memo)}
+class Guarded(BaseModel):
+    """Schema features beyond plain typed fields: an aliased field, a range constraint, unknown keys forbidden, and a
+    validator that answers in the odd-but-legal ways (ValueError with an EMPTY message, a bare assert, exception
+    classes that pydantic does not wrap)."""
+    model_config = ConfigDict(extra="forbid")
+    ident: str = Field(alias="id")
+    qty: int = Field(ge=0, le=100)
+    mode: str = "auto"
+
+    @field_validator("ident")
+    @classmethod
+    def _ident_ok(cls, v):
+        if v == "x,}":
+            raise ValueError()
+        if v == "it's":
+            raise KeyError("")
+        if v == "{not json}":
+            raise StopIteration
+        assert v != "None"
+        return v
+
+
+class Tree(BaseModel):
+    """Self-similar nesting: an inner object of the text can itself be an instance of the requested schema."""
+    label: str
+    kids: list[Inner] = []
+    child: Optional["Tree"] = None
+
+
+class Loose(BaseModel):
+    """Every field defaulted: any JSON object of the text (a decoy, an inner object, {}) is schema-valid."""
+    label: str = "root"
+    n: int = 0
+    inner: Optional[Inner] = None
+
+
+SCHEMAS = {c.__name__: c for c in (Person, Quote, Tagged, Note, Outer, Post, Memo, Guarded, Tree, Loose)}
+# A second class with the same fields per schema: the answer for one schema must never be served for the other.
+TWINS = {n: create_model(n + "Twin", __base__=c) for n, c in SCHEMAS.items()}
 
 HAZ = ["Ada", "None", "True story", "x,}", "it's", "a: 'b'", "ratio: NaN", "{not json}", "two  spaces", "", "é☃",
        "False alarm", "[1, 2,]", "k: undefined", "x, y: z", 'say "hi"', "{a: 1}", "NaN", "\ud800"]
@@ -127,10 +184,17 @@ def instances(tier):
         out["Post"].append([{"title": h}, {"title": h, "count": 2}, {"title": h, "count": 0, "flag": True}][i % 3])
         if i % 2 == 0:
             out["Note"].append({"note": h, "k": i})
+            out["Tree"].append([{"label": h, "kids": [{"a": i, "s": h}], "child": {"label": "leaf", "kids": []}},
+                                {"label": "top", "child": {"label": h, "child": {"label": "deep"}}}][(i // 2) % 2])
+        g = {"id": h, "qty": (3, 0, -1, 100, 101)[i % 5]}
+        out["Guarded"].append(g if i % 3 else dict(g, mode=h))
+        if i % 3 == 0:
+            out["Loose"].append([{"label": h, "n": i, "inner": {"a": 1, "s": h}}, {"label": h}][(i // 3) % 2])
     for j in range(0, len(hz) - 1, 2):
         out["Tagged"].append({"tags": [hz[j], hz[j + 1]], "n": j})
     out["Tagged"] += [{"tags": [], "n": 1}, {"tags": ["solo"], "n": 2}]
     out["Note"] += [{"note": None, "k": 1}, {"k": 2}]
+    out["Loose"] += [{}]
     # escape hazard x repair target, in both orders, as neighbouring fields and as neighbouring list elements.  The
     # values alternate (x | y x y | y) so that a target follows one hazard and follows two of them: a boundary error
     # that a second hazard value cancels (quote parity) must not hide behind an even count.
@@ -148,6 +212,9 @@ DECOY = {
     "Outer": {"inner": {"a": 99, "s": "decoy"}, "label": "decoy"},
     "Post": {"title": "decoy", "count": 99},
     "Memo": {"a": "decoy", "tags": ["decoy"], "b": "decoy", "ok": False},
+    "Guarded": {"id": "decoy", "qty": 99},
+    "Tree": {"label": "decoy"},
+    "Loose": {"label": "decoy", "n": 99},
 }
 
 # ----------------------------------------------------------------------------------------------
@@ -156,10 +223,14 @@ DECOY = {
 
 DEEP = "\x00DEEP\x00"  # marker leaf, rendered as a 2000-deep list
 DEEP_N = 2000
+BIG = "\x00BIG\x00"  # marker leaf, rendered as an integer literal beyond the interpreter's int<->str digit limit
+BIG_N = 5000
+MARKERS = (DEEP, BIG)
 
 FLAG_OPS = ("single_quotes", "trailing_commas", "py_literals", "unquoted_keys", "raw_unicode")
-DATA_OPS = ("num_as_str", "bool_as_str", "list_as_commastr", "str_as_num", "drop_last_field", "deep_field")
-LAYER_OPS = ("fence_json", "fence_bare", "prose", "xml_tags", "decoy_other", "decoy_valid", "deep_wrap")
+DATA_OPS = ("num_as_str", "bool_as_str", "list_as_commastr", "str_as_num", "drop_last_field", "deep_field", "extra_field",
+            "huge_int")
+LAYER_OPS = ("fence_json", "fence_bare", "prose", "xml_tags", "decoy_other", "decoy_valid", "decoy_scalar", "deep_wrap")
 SYNTACTIC_LAYERS = {"fence_json", "fence_bare", "prose", "xml_tags"}
 # Schemas whose instances are run under the purely syntactic operators only (the inputs for which a REPAIR result has a
 # reference value); the instance alphabet of such a family is a product and is too large for the full operator alphabet.
@@ -179,7 +250,7 @@ def _has_deep(v):
         return any(_has_deep(x) for x in v.values())
     if isinstance(v, list):
         return any(_has_deep(x) for x in v)
-    return v == DEEP
+    return v in MARKERS
 
 
 def apply_data_op(op, data):
@@ -193,7 +264,7 @@ def apply_data_op(op, data):
     if op == "str_as_num":
         out, done = {}, False
         for k, v in data.items():
-            if not done and isinstance(v, str) and v != DEEP:
+            if not done and isinstance(v, str) and v not in MARKERS:
                 out[k], done = 7, True
             else:
                 out[k] = v
@@ -204,6 +275,16 @@ def apply_data_op(op, data):
     if op == "deep_field":
         ks = list(data)
         return {k: (DEEP if k == ks[0] else v) for k, v in data.items()} if ks else data
+    if op == "extra_field":
+        return dict(data, zz_extra=1)
+    if op == "huge_int":
+        out, done = {}, False
+        for k, v in data.items():
+            if not done and isinstance(v, int) and not isinstance(v, bool):
+                out[k], done = BIG, True
+            else:
+                out[k] = v
+        return out
     raise AssertionError(op)
 
 
@@ -243,6 +324,8 @@ def tokens(v, fl):
     if isinstance(v, str):
         if v == DEEP:
             return ["[" * DEEP_N + "]" * DEEP_N]
+        if v == BIG:
+            return ["1" + "0" * BIG_N]
         return [_q(v, fl)]
     if v is True or v is False:
         return [("True" if v else "False") if "py_literals" in fl else ("true" if v else "false")]
@@ -264,6 +347,8 @@ def layer(op, schema):
         return ('For reference the request was {"status": "draft", "id": 12}. Answer: ', "")
     if op == "decoy_valid":
         return ("Example of the format: " + json.dumps(DECOY[schema]) + "\nActual answer: ", "")
+    if op == "decoy_scalar":
+        return ("```json\n42\n```\nThe object: ", "")
     if op == "deep_wrap":
         return ("[" * DEEP_N, "]" * DEEP_N)
     raise AssertionError(op)
@@ -347,9 +432,14 @@ def build(schema, data, seq):
 # ----------------------------------------------------------------------------------------------
 
 STRATS = ("STRICT", "EXTRACTION", "LENIENT", "REPAIR")
-ALL_ORDERS = [None] + [p for n in range(1, 5) for p in itertools.permutations(STRATS, n)]  # default + 64
-BASE_ORDERS = [None] + [(s,) for s in STRATS] + [tuple(reversed(STRATS))]
+DEFAULT = STRATS  # the documented default cascade
+PERMS = [p for n in range(1, 5) for p in itertools.permutations(STRATS, n)]  # the 64 non-empty ordered subsets
+REPEATS = [(s, s) for s in STRATS] + [(s, t, s) for s in STRATS for t in STRATS if s != t]  # a strategy listed twice
+ALL_ORDERS = [None, ()] + PERMS + REPEATS  # no argument, the empty list, 64 + 16
 SINGLES = [(s,) for s in STRATS]
+BASE_ORDERS = [None, ()] + SINGLES + [tuple(reversed(STRATS)), ("EXTRACTION", "EXTRACTION"), ("REPAIR", "STRICT", "REPAIR")]
+CONFIG_ORDERS = [None, ()] + SINGLES + [tuple(reversed(STRATS))]
+CONFIG_ORDERS_REDUCED = [None, tuple(reversed(STRATS))]
 _DEC = json.JSONDecoder()
 
 
@@ -396,31 +486,36 @@ def json_values(raw):
 _TRUE, _FALSE = ("true", "1", "yes"), ("false", "0", "no")
 
 
+def _coerce_one(out, name, ann):
+    if name not in out:
+        return
+    v = out[name]
+    try:
+        if ann is int and isinstance(v, str):
+            out[name] = int(v)
+        elif ann is float and isinstance(v, str):
+            out[name] = float(v)
+        elif ann is str and isinstance(v, (int, float)):
+            out[name] = str(v)
+        elif ann is bool and isinstance(v, str):
+            if v.lower() in _TRUE:
+                out[name] = True
+            elif v.lower() in _FALSE:
+                out[name] = False
+        elif getattr(ann, "__origin__", None) is list and isinstance(v, str):
+            out[name] = [x.strip() for x in v.split(",")]
+    except ValueError:
+        pass
+
+
 def ref_coerce(S, d):
     """The documented lenient coercions (string->int/float/bool/list, number->string), from the class documentation."""
     if not isinstance(d, dict):
         return d
     out = dict(d)
-    for name, info in S.model_fields.items():
-        if name not in out:
-            continue
-        v, ann = out[name], info.annotation
-        try:
-            if ann is int and isinstance(v, str):
-                out[name] = int(v)
-            elif ann is float and isinstance(v, str):
-                out[name] = float(v)
-            elif ann is str and isinstance(v, (int, float)):
-                out[name] = str(v)
-            elif ann is bool and isinstance(v, str):
-                if v.lower() in _TRUE:
-                    out[name] = True
-                elif v.lower() in _FALSE:
-                    out[name] = False
-            elif getattr(ann, "__origin__", None) is list and isinstance(v, str):
-                out[name] = [x.strip() for x in v.split(",")]
-        except ValueError:
-            pass
+    for fname, info in S.model_fields.items():
+        for name in dict.fromkeys((fname, getattr(info, "alias", None) or fname)):
+            _coerce_one(out, name, info.annotation)
     return out
 
 
@@ -443,15 +538,23 @@ def culprit_rules(data):
     return out
 
 
+def _ident(text):
+    return text
+
+
+def _oname(order):
+    return "default" if order is None else ("/".join(order) or "empty-list")
+
+
 class Judge:
     """All clauses for one (schema, raw text)."""
 
-    def __init__(self, schema, raw, data, syntactic):
-        self.S = SCHEMAS[schema]
+    def __init__(self, schema, raw, data, syntactic, S=None, chap=None):
+        self.S = S or SCHEMAS[schema]
         self.schema, self.raw, self.data, self.syntactic = schema, raw, data, syntactic
         self.v = []  # (key, what)
         self.folds = 0
-        self.chap = Chaperone(silent=True)
+        self.chap = chap or Chaperone(silent=True)
         try:
             self.clean = validate(self.S, json.loads(raw))
         except Exception:  # noqa: BLE001 - not JSON
@@ -460,18 +563,21 @@ class Judge:
         self.results = {}  # order -> (fold result, enhanced result)
         self.unjudged_repair = 0
         self.reduction_mismatch = 0
+        self.config_folds = 0
 
     def bad(self, key, what):
         self.v.append((key, what))
 
-    def call(self, api, order):
+    def call(self, api, order, chap=None, label=""):
+        chap = chap or self.chap
         strategies = None if order is None else [FoldingStrategy[s] for s in order]
         self.folds += 1
         try:
-            fn = self.chap.fold if api == "fold" else self.chap.fold_enhanced
+            fn = chap.fold if api == "fold" else chap.fold_enhanced
             return fn(self.raw, self.S, strategies)
         except Exception as e:  # noqa: BLE001
-            self.bad(f"raises:{api}:{type(e).__name__}", f"{api}(order={order}) raised {type(e).__name__}: {str(e)[:120]}")
+            self.bad(f"raises:{api}:{type(e).__name__}",
+                     f"{api}({label}order={_oname(order)}) raised {type(e).__name__}: {str(e)[:120]}")
             return None
 
     def values(self):
@@ -480,15 +586,15 @@ class Judge:
         return self._values
 
     # -- single result -------------------------------------------------------------------
-    def check_result(self, api, order, r):
+    def check_result(self, api, tag, eff, r):
+        """eff: the strategy order in force for this call as the CALLER knows it (None: the statement does not say)."""
         S = self.S
-        tag = f"{api}(order={'default' if order is None else '/'.join(order)})"
         if r.valid is True:
             st = r.structure
             if not isinstance(st, S):
                 self.bad(f"valid-structure-not-schema-instance:{api}", f"{tag} valid with structure {st!r:.120}")
                 return
-            again = validate(S, st.model_dump())
+            again = validate(S, st.model_dump(by_alias=True))
             if not same(again, st):
                 self.bad(f"valid-structure-does-not-revalidate:{api}", f"{tag}: {st!r:.120} re-validates to {again!r:.120}")
         elif r.valid is False:
@@ -506,8 +612,10 @@ class Judge:
             elif c == 1.0 and r.strategy_used is not FoldingStrategy.STRICT:
                 self.bad(f"confidence-1.0-without-strict:{getattr(r.strategy_used, 'name', None)}",
                          f"{tag} confidence 1.0 with strategy_used={r.strategy_used}")
-        strict_first = order is None or order[0] == "STRICT"
-        if self.clean is not None and strict_first:
+            elif c == 1.0 and eff is not None and "STRICT" not in eff:
+                # the caller did not ask for the strict strategy, whatever the result says about itself
+                self.bad("confidence-1.0-without-strict:not-requested", f"{tag} confidence 1.0, STRICT is not in the order")
+        if self.clean is not None and eff is not None and eff[0] == "STRICT":
             if r.valid is not True:
                 self.bad(f"clean-json-rejected:{api}", f"{tag}: raw is schema-valid JSON but the result is invalid")
             elif not same(r.structure, self.clean):
@@ -520,8 +628,7 @@ class Judge:
                     self.bad("clean-json-confidence-not-1.0", f"{tag}: confidence={r.confidence}")
 
     # -- provenance --------------------------------------------------------------------------
-    def provenance(self, api, order, structure, strategy):
-        tag = f"{api}(order={'default' if order is None else '/'.join(order)})"
+    def provenance(self, tag, structure, strategy):
         S = self.S
         if strategy in ("STRICT", "EXTRACTION", "LENIENT"):
             for d in self.values():
@@ -548,39 +655,48 @@ class Judge:
                 self.bad(f"repair-rewrites-string-content:{rule}",
                          f"{tag}: raw is a syntactic corruption of {self.data!r:.100} but REPAIR returned {structure!r:.100}")
 
+    # -- one (fold, fold_enhanced) pair for the same arguments ---------------------------------------
+    def judge_pair(self, label, order, eff, rf, re_):
+        tf, te = (f"{api}({label}order={_oname(order)})" for api in ("fold", "enh"))
+        if rf is not None:
+            self.check_result("fold", tf, eff, rf)
+        if re_ is not None:
+            self.check_result("enh", te, eff, re_)
+        if rf is None or re_ is None:
+            return
+        if bool(rf.valid) != bool(re_.valid):
+            self.bad("fold-enhanced-disagree:validity",
+                     f"{label}order={_oname(order)}: fold valid={rf.valid}, fold_enhanced valid={re_.valid}")
+        elif rf.valid and not same(rf.structure, re_.structure):
+            self.bad("fold-enhanced-disagree:structure",
+                     f"{label}order={_oname(order)}: fold {rf.structure!r:.100} vs fold_enhanced {re_.structure!r:.100}")
+        # which strategy produced the result: what the result says, and - when the caller requested one strategy only -
+        # what the caller knows (a result that mis-states its strategy must not choose its own provenance rule)
+        only = eff[0] if eff and len(set(eff)) == 1 else None
+        if re_.valid is True and isinstance(re_.structure, self.S):
+            strat = getattr(re_.strategy_used, "name", None)
+            if strat not in STRATS:
+                self.bad("valid-without-strategy-used", f"{label}order={_oname(order)}: strategy_used={re_.strategy_used!r}")
+            for st in dict.fromkeys(x for x in (strat, only) if x in STRATS):
+                self.provenance(te, re_.structure, st)
+                if rf.valid is True and isinstance(rf.structure, self.S) and not same(rf.structure, re_.structure):
+                    self.provenance(tf, rf.structure, st)
+        if only is not None and rf.valid is True and isinstance(rf.structure, self.S) and not (re_.valid is True):
+            self.provenance(tf, rf.structure, only)
+
     # -- all orders ------------------------------------------------------------------------------
-    def run(self, orders):
+    def run(self, orders, extras=None):
         for order in orders:
             rf = self.call("fold", order)
             re_ = self.call("enh", order)
             self.results[order] = (rf, re_)
-            if rf is not None:
-                self.check_result("fold", order, rf)
-            if re_ is not None:
-                self.check_result("enh", order, re_)
-            if rf is None or re_ is None:
-                continue
-            if bool(rf.valid) != bool(re_.valid):
-                self.bad("fold-enhanced-disagree:validity",
-                         f"order={order}: fold valid={rf.valid}, fold_enhanced valid={re_.valid}")
-            elif rf.valid and not same(rf.structure, re_.structure):
-                self.bad("fold-enhanced-disagree:structure",
-                         f"order={order}: fold {rf.structure!r:.100} vs fold_enhanced {re_.structure!r:.100}")
-            if re_.valid is True and isinstance(re_.structure, self.S):
-                strat = getattr(re_.strategy_used, "name", None)
-                if strat not in STRATS:
-                    self.bad("valid-without-strategy-used", f"order={order}: strategy_used={re_.strategy_used!r}")
-                else:
-                    self.provenance("enh", order, re_.structure, strat)
-                    if rf.valid is True and isinstance(rf.structure, self.S) and not same(rf.structure, re_.structure):
-                        self.provenance("fold", order, rf.structure, strat)
-            if order is not None and len(order) == 1 and rf.valid is True and isinstance(rf.structure, self.S) \
-                    and not (re_.valid is True):
-                self.provenance("fold", order, rf.structure, order[0])
+            # the order in force: the caller's list; no argument = the documented default; the EMPTY list is not
+            # covered by the statement (default or nothing), so nothing order-dependent is asserted for it
+            self.judge_pair("", order, DEFAULT if order is None else (order or None), rf, re_)
         # order reduction: cascade == first strategy that succeeds on its own
         if all(s in self.results for s in SINGLES):
             for order, (rf, re_) in self.results.items():
-                if order is None or len(order) == 1 or rf is None or re_ is None:
+                if not order or len(order) == 1 or rf is None or re_ is None:
                     continue
                 exp = None
                 for s in order:
@@ -594,6 +710,104 @@ class Judge:
                         and exp.confidence == re_.confidence
                 if not ok:
                     self.reduction_mismatch += 1
+            # "confidence is 1.0 only for strict", decided from the calls: the strict strategy on its own rejects this
+            # text, so no order can have obtained its result from it
+            st = self.results[("STRICT",)]
+            if st[0] is not None and st[1] is not None and not st[0].valid and not st[1].valid:
+                for order, (rf, re_) in self.results.items():
+                    if re_ is not None and re_.valid and re_.confidence == 1.0:
+                        self.bad("confidence-1.0-without-strict:strict-alone-rejects",
+                                 f"enh(order={_oname(order)}) confidence 1.0 but STRICT on its own rejects the text")
+        if extras:
+            self.history()
+        if extras == "full":
+            self.configs(CONFIG_ORDERS)
+        elif extras == "reduced":
+            self.configs(CONFIG_ORDERS_REDUCED)
+
+    # -- the same call again: after other calls, after another schema, on another object ------------------------
+    def compare(self, kind, first, again):
+        for api, a, b in (("fold", first[0], again[0]), ("enh", first[1], again[1])):
+            if a is None or b is None:
+                continue
+            ok = bool(a.valid) == bool(b.valid) and same(a.structure, b.structure)
+            if ok and api == "enh":
+                ok = a.strategy_used is b.strategy_used and a.confidence == b.confidence
+            if not ok:
+                extra = (lambda r: f" {getattr(r.strategy_used, 'name', None)}/{r.confidence}") if api == "enh" else (lambda r: "")
+                self.bad(f"history-changes-result:{kind}:{api}",
+                         f"{api}(default order) answered valid={a.valid} {a.structure!r:.80}{extra(a)} on a fresh validator and "
+                         f"valid={b.valid} {b.structure!r:.80}{extra(b)} for the same arguments {kind}")
+
+    def history(self):
+        first = self.results.get(None)
+        if first is None:
+            return
+        tw = Judge(self.schema, self.raw, self.data, self.syntactic, S=TWINS[self.schema], chap=self.chap)
+        tw.run([None])
+        self.folds += tw.folds
+        self.unjudged_repair += tw.unjudged_repair
+        self.v += [(k, "twin schema after the schema: " + w) for k, w in tw.v]
+        again = (self.call("fold", None, label="again "), self.call("enh", None, label="again "))
+        self.judge_pair("after the other orders and the twin schema, ", None, DEFAULT, *again)
+        self.compare("after-other-calls", first, again)
+        other = Chaperone(silent=True)
+        again = (self.call("fold", None, other, "other object "), self.call("enh", None, other, "other object "))
+        self.judge_pair("other object, ", None, DEFAULT, *again)
+        self.compare("on-another-object", first, again)
+
+    # -- constructor options and mutators crossed with the orders ------------------------------------------
+    def configs(self, orders):
+        n0 = self.folds
+        S = self.S
+        names = list(SCHEMAS)
+        foreign = SCHEMAS[names[(names.index(self.schema) + 1) % len(names)]]
+        decoy = json.dumps(DECOY[self.schema])  # schema-valid for S: visible at once if it is ever applied to S
+
+        def garbage(_text):
+            return decoy
+
+        # (a) the order given to the constructor instead of the call; max_retries=1
+        for order in orders:
+            chap = Chaperone(max_retries=1, strategies=None if order is None else [FoldingStrategy[s] for s in order],
+                             silent=True)
+            lab = f"Chaperone(max_retries=1, strategies={_oname(order)}) "
+            self.judge_pair(lab, None, DEFAULT if order is None else (order or None),
+                            self.call("fold", None, chap, lab), self.call("enh", None, chap, lab))
+        # (b) every other constructor option away from its default
+        told = []
+        chap = Chaperone(max_retries=0, co_chaperones={S: _ident, foreign: garbage}, on_misfold=told.append, silent=False)
+        lab = "Chaperone(max_retries=0, co_chaperones={schema: identity, other schema: f}, on_misfold=recorder, silent=False) "
+        sink = io.StringIO()
+        for order in orders:
+            pair = []
+            for api in ("fold", "enh"):
+                del told[:]
+                with contextlib.redirect_stdout(sink):
+                    r = self.call(api, order, chap, lab)
+                pair.append(r)
+                for m in told:  # what the validator reported as a misfold
+                    if r is not None and r.valid:
+                        self.bad(f"misfold-reported-for-valid-fold:{api}", f"{api}({lab}order={_oname(order)}) returned valid "
+                                 "and reported a misfold to on_misfold")
+                    if getattr(m, "valid", None) is not False or getattr(m, "structure", None) is not None:
+                        self.bad(f"misfold-report-not-an-invalid-result:{api}", f"{api}({lab}order={_oname(order)}) reported "
+                                 f"valid={getattr(m, 'valid', None)!r} structure={getattr(m, 'structure', None)!r:.80}")
+            self.judge_pair(lab, order, DEFAULT if order is None else (order or None), *pair)
+        # (c) public mutators between construction and the call
+        chap = Chaperone(max_retries=10 ** 6, silent=True)
+        chap.register_co_chaperone(foreign, garbage)
+        chap.register_co_chaperone(S, garbage)
+        chap.register_co_chaperone(S, _ident)  # re-registration replaces
+        rev = tuple(reversed(STRATS))
+        chap.strategies = [FoldingStrategy[s] for s in rev]
+        lab = "Chaperone(max_retries=10**6) + register_co_chaperone x3 + strategies attribute reversed + reset_statistics "
+        for i, order in enumerate(orders):
+            if i % 2 == 0:
+                chap.reset_statistics()
+            self.judge_pair(lab, order, rev if order is None else (order or None),
+                            self.call("fold", order, chap, lab), self.call("enh", order, chap, lab))
+        self.config_folds += self.folds - n0
 
     def signature(self):
         sig = []
@@ -618,33 +832,58 @@ class Judge:
 TIERS = {"quick": {"maxlen": 2, "full_len": 1, "parts": 1}, "thorough": {"maxlen": 3, "full_len": 2, "parts": 3}}
 
 
-def work(task):
-    """All corruption sequences of one (schema, instance)."""
-    schema, data, maxlen, full_len, part, nparts = task
+# Raw texts that are not a corruption of any instance: empty / blank text, JSON values that are not objects, empty
+# containers and fences, unbalanced brackets, control and surrogate characters.  (Schema Loose accepts "{}".)
+DEGENERATE = ["", " ", "\n\t ", "null", "true", "42", "-0.0", '"text"', "[]", "{}", " {} ", "[{}]", "{}{}", "{", "}", "[", "]{",
+              "```json\n```", "```\n\n```", "```json\n{}\n```", "<json></json>", "<json>{}</json>", "\x00", "\ud800", '{"": ""}',
+              "{} and {}", "NaN", "Infinity", "1" + "0" * BIG_N, "None", "''", "{,}", "{:}"]
+
+
+def inputs_of(schema, data, maxlen):
+    """(operator sequence, raw text, is-syntactic, data) of one task, de-duplicated."""
+    if data is None:
+        for raw in DEGENERATE:
+            yield ("raw",), raw, False, None
+        return
     seen = set()
-    digests = []
-    nontrivial = []
-    outcomes = set()
-    viols = {}
-    n = {"sequences": 0, "sequences_distinct": 0, "inputs": 0, "inputs_all_orders": 0, "folds": 0, "nontrivial": 0, "clean_inputs": 0,
-         "syntactic_inputs": 0, "repair_unjudged": 0, "reduction_checked": 0, "reduction_mismatch": 0}
     for seq in sequences(op_alphabet(schema, data), maxlen):
-        n["sequences"] += part == 0
         doc = build(schema, data, seq)
         raw, syntactic = doc.render()
         key = (raw, syntactic, json.dumps(doc.data, sort_keys=True) if syntactic else None)
         if key in seen:
+            yield seq, None, None, None
             continue
         seen.add(key)
+        yield seq, raw, syntactic, doc.data
+
+
+def work(task):
+    """All corruption sequences of one (schema, instance); instance None = the degenerate raw texts."""
+    schema, data, maxlen, full_len, part, nparts = task
+    digests = []
+    nontrivial = []
+    outcomes = set()
+    viols = {}
+    n = {"sequences": 0, "sequences_distinct": 0, "inputs": 0, "inputs_all_orders": 0, "folds": 0, "config_folds": 0,
+         "nontrivial": 0, "clean_inputs": 0, "degenerate_inputs": 0,
+         "syntactic_inputs": 0, "repair_unjudged": 0, "reduction_checked": 0, "reduction_mismatch": 0}
+    ndist = 0
+    for seq, raw, syntactic, ddata in inputs_of(schema, data, maxlen):
+        n["sequences"] += part == 0
+        if raw is None:
+            continue
+        ndist += 1
         n["sequences_distinct"] += part == 0
-        if (len(seen) - 1) % nparts != part:
+        if (ndist - 1) % nparts != part:
             continue  # another process judges this input (the enumeration is cheap and repeated per part)
         full = len(seq) <= full_len
-        j = Judge(schema, raw, doc.data, syntactic)
-        j.run(ALL_ORDERS if full else BASE_ORDERS)
+        j = Judge(schema, raw, ddata, syntactic)
+        j.run(ALL_ORDERS if full else BASE_ORDERS, extras="full" if full else ("reduced" if len(seq) <= 2 else "history"))
         n["inputs"] += 1
         n["inputs_all_orders"] += full
+        n["degenerate_inputs"] += data is None
         n["folds"] += j.folds
+        n["config_folds"] += j.config_folds
         n["nontrivial"] += j.any_valid()
         n["clean_inputs"] += j.clean is not None
         n["syntactic_inputs"] += syntactic
@@ -659,6 +898,8 @@ def work(task):
         if j.v:
             # the instance travels as JSON text: replay files are written with sorted keys, field order matters here
             case = {"schema": schema, "instance_json": json.dumps(data), "ops": list(seq), "raw": raw}
+            if data is None:
+                case["ops"] = []
             for k, what in j.v:
                 viols.setdefault(k, [k, what, case, 0])[3] += 1
     return {"n": n, "digests": b"".join(digests), "nontrivial": b"".join(nontrivial), "outcomes": outcomes, "viols": list(viols.values())}
@@ -670,6 +911,7 @@ def run(ctx):
     for attempt in (0, 1):
         tasks = [(s, d, cfg["maxlen"], cfg["full_len"], p, cfg["parts"]) for s in SCHEMAS for d in inst[s]
                  for p in range(cfg["parts"])]
+        tasks += [(s, None, cfg["maxlen"], cfg["full_len"], 0, 1) for s in SCHEMAS]
         order = common.rotate(list(range(len(tasks))), ctx.seed)
         results = dict(zip(order, common.pmap(work, [tasks[i] for i in order])))
         mism = sum(results[i]["n"]["reduction_mismatch"] for i in range(len(tasks)))
@@ -708,12 +950,16 @@ def run(ctx):
         traces_validated_against_impl=tot["folds"],
         evaluations=tot["folds"],
         distinct_nontrivial=len(distinct_nt),
-        rule="engine D: 7 schemas x instances (hazard-string alphabets; schema Memo: the product escape-hazard string x "
+        rule="engine D: 10 schemas x instances (hazard-string alphabets; schema Memo: the product escape-hazard string x "
         "repair-target string in both orders as neighbouring fields and list elements) x every corruption-operator "
         "sequence up to the length bound (flag/data operators not repeated, at most one truncation; Memo: the 9 purely "
         "syntactic operators only), rendered and de-duplicated per instance; each distinct raw text is folded by fold and fold_enhanced under the default order and all 64 "
-        "non-empty ordered strategy subsets (inputs of the longest sequence length in the thorough tier: default, 4 "
-        "single strategies and the reversed order, justified by the checked order reduction); states = distinct "
+        "non-empty ordered strategy subsets, the empty list and 16 orders with a repeated strategy (inputs of the longest "
+        "sequence length: default, empty, 4 single strategies, the reversed order and 2 repeated orders, justified by the "
+        "checked order reduction); plus per schema the degenerate raw texts; plus per input the default order repeated "
+        "after the other orders / after a twin schema / on another object, and 3 non-default constructor / mutator "
+        "configurations x {default, empty, singles, reversed} (reduced to {default, reversed} for inputs of the longest "
+        "sequence length in quick, none for 3-operator inputs); states = distinct "
         "(schema, raw text), transitions = fold calls; non-trivial = inputs that at least one fold accepts",
         exhaustive=True,
         max_operators=cfg["maxlen"],
@@ -724,6 +970,8 @@ def run(ctx):
         repair_target_values=len(TGT),
         operator_sequences=tot["sequences"],
         orders=len(ALL_ORDERS),
+        config_folds=tot["config_folds"],
+        degenerate_inputs=tot["degenerate_inputs"],
         order_reduction_checked_on=tot["reduction_checked"],
         order_reduction_mismatches=tot["reduction_mismatch"],
     )
@@ -738,12 +986,15 @@ def run(ctx):
 
 def replay(ctx, case):
     schema, data, seq = case["schema"], json.loads(case["instance_json"]), tuple(case["ops"])
-    doc = build(schema, data, seq)
-    raw, syntactic = doc.render()
-    if raw != case["raw"]:
-        raise common.HarnessError("replay: the recorded operator sequence no longer renders the recorded raw text")
-    j = Judge(schema, raw, doc.data, syntactic)
-    j.run(ALL_ORDERS)
+    if data is None:  # a degenerate raw text
+        j = Judge(schema, case["raw"], None, False)
+    else:
+        doc = build(schema, data, seq)
+        raw, syntactic = doc.render()
+        if raw != case["raw"]:
+            raise common.HarnessError("replay: the recorded operator sequence no longer renders the recorded raw text")
+        j = Judge(schema, raw, doc.data, syntactic)
+    j.run(ALL_ORDERS, extras="full")
     seen, out = set(), []
     for k, what in j.v:
         if k not in seen:
